@@ -613,6 +613,225 @@ example : recvResponse toy [([120], [49])] = .err .missingStatus := by decide
 example : recvResponse toy [(nStatus, [48, 57, 57])] = .err .invalidHeaderValue := by decide
 example : recvTrailers toy [([120], [49])] = .ok [([120], [[49]])] := by decide
 example : recvTrailers toy [(nStatus, [50, 48, 48]), ([120], [49])] = .err .invalidHeaderName := by decide
+/-! ## reading R-12c: `:protocol` tokens written out; "parseable" without the crate -/
+
+/-- The `Protocol` table read from `h3/src/ext.rs` on this run is the list of IANA upgrade tokens the
+    specification writes out (`webtransport`, `connect-udp`, `connect-ip`, `websocket`): the oracle for
+    `:protocol` does not take its word from the code. -/
+theorem C12_protocols_are_iana_tokens : H3.Gen.Headers.protocols = protocolTokens := protocols_gen_eq_spec
+
+example : [0x68, 0x32, 0x63] ∉ protocolTokens := by decide                                   -- h2c
+example : [0x77, 0x65, 0x62, 0x73, 0x6f, 0x63, 0x6b, 0x65, 0x74] ∈ protocolTokens := by decide   -- websocket
+
+/-- What the `http` crate would have to guarantee for h3's delegation to be complete with respect to
+    the crate-independent necessary conditions of R-12c (`SyntaxOk`).  The real crate does NOT
+    satisfy the first three (finding D-12g; `lax` below behaves as it does). -/
+structure HttpSyntaxLaws (H : Http) : Prop where
+  scheme_syntax : ∀ v, (H.parseScheme v).isSome → SchemeSyntax v
+  authority_syntax : ∀ v, (H.parseAuthority v).isSome → AuthoritySyntax v
+  path_syntax : ∀ v, (H.parsePath v).isSome → PathSyntax v
+  path_nonempty : H.parsePath [] = none
+
+/-- FULL STATEMENT (false for the real `http` crate, see `C12_accepted_request_syntax_fails`):
+    `∀ H, HttpLaws H → ∀ fs r, recvRequest H fs = .ok r → WellFormedRequestStrict H fs` — a request is
+    handed over only if its `:scheme` is an RFC 3986 scheme, its `:authority` has at most one `@` and a
+    numeric port, its `:path` has no `#` and is not empty under `http`/`https`.
+    PROVED PART: it holds for every `H` whose three parsers refuse what these conditions exclude
+    (`HttpSyntaxLaws`), i.e. h3 adds no leniency of its own; MISSING: h3 has no check of its own, so with
+    the real parsers (which accept an empty `:scheme`, `1http`, `a@b@c`, `a.com:x`, `/a#frag`) the
+    full statement fails. -/
+theorem C12_accepted_request_syntax_partial (H : Http) (L : HttpLaws H) (S : HttpSyntaxLaws H)
+    (fs : List FieldLine) (r : RequestParts) (h : recvRequest H fs = .ok r) :
+    WellFormedRequestStrict H fs := by
+  have hw := (C12_accepted_request_wellformed H L fs r h).1
+  refine ⟨hw, ?_, ?_⟩
+  · intro f hf
+    have hok := hw.1 f hf
+    obtain ⟨_, hok⟩ := hok
+    refine ⟨?_, ?_, ?_⟩
+    · intro e
+      rw [e, if_pos (by decide : IsPseudo nScheme)] at hok
+      rcases hok with ⟨e', _⟩ | ⟨_, hp⟩ | ⟨e', _⟩ | ⟨e', _⟩ | ⟨e', _⟩ | ⟨e', _⟩
+      · exact absurd e' (by decide)
+      · exact S.scheme_syntax _ hp
+      · exact absurd e' (by decide)
+      · exact absurd e' (by decide)
+      · exact absurd e' (by decide)
+      · exact absurd e' (by decide)
+    · intro e
+      rw [e, if_pos (by decide : IsPseudo nAuthority)] at hok
+      rcases hok with ⟨e', _⟩ | ⟨e', _⟩ | ⟨_, hp⟩ | ⟨e', _⟩ | ⟨e', _⟩ | ⟨e', _⟩
+      · exact absurd e' (by decide)
+      · exact absurd e' (by decide)
+      · exact S.authority_syntax _ hp
+      · exact absurd e' (by decide)
+      · exact absurd e' (by decide)
+      · exact absurd e' (by decide)
+    · intro e
+      rw [e, if_pos (by decide : IsPseudo nPath)] at hok
+      rcases hok with ⟨e', _⟩ | ⟨e', _⟩ | ⟨e', _⟩ | ⟨_, hp⟩ | ⟨e', _⟩ | ⟨e', _⟩
+      · exact absurd e' (by decide)
+      · exact absurd e' (by decide)
+      · exact absurd e' (by decide)
+      · exact S.path_syntax _ hp
+      · exact absurd e' (by decide)
+      · exact absurd e' (by decide)
+  · intro _ _ p hp e
+    subst e
+    have hf : (nPath, []) ∈ fs := mem_valuesOf.mp hp
+    obtain ⟨_, hok⟩ := hw.1 _ hf
+    rw [if_pos (by decide : IsPseudo nPath)] at hok
+    rcases hok with ⟨e', _⟩ | ⟨e', _⟩ | ⟨e', _⟩ | ⟨_, hp'⟩ | ⟨e', _⟩ | ⟨e', _⟩
+    · exact absurd e' (by decide)
+    · exact absurd e' (by decide)
+    · exact absurd e' (by decide)
+    · rw [S.path_nonempty] at hp'; cases hp'
+    · exact absurd e' (by decide)
+    · exact absurd e' (by decide)
+
+/-- An `Http` that answers as `http` 1.x does on the byte strings used below (checked against the real
+    crate by the verdict tables of the correspondence run: `corpus/C12/d12g_syntax.txt`): `Scheme` checks
+    only the byte set (letters, digits, `+`, `-`, `.`; up to 64 bytes; the empty string passes),
+    `Authority` a byte set and at most one `:` outside brackets (any number of `@`, anything after the
+    `:`), `PathAndQuery` refuses the empty string, wants `/`, `?`, `#` or `*` first and DROPS everything
+    from the first `#` on (an empty rest prints as `/`); `Uri::builder` wants scheme and path both or
+    neither. -/
+def laxSchemeByte (b : Nat) : Bool :=
+  (65 ≤ b && b ≤ 90) || (97 ≤ b && b ≤ 122) || (48 ≤ b && b ≤ 57) || b == 0x2b || b == 0x2d || b == 0x2e
+def laxAuthByte (b : Nat) : Bool :=
+  (97 ≤ b && b ≤ 122) || (48 ≤ b && b ≤ 57) || b == 0x2e || b == 0x2d || b == 0x3a || b == 0x40
+def laxAuthOk (v : Bytes) : Bool := !v.isEmpty && v.all laxAuthByte && decide ((v.filter (· == 0x3a)).length ≤ 1)
+
+def lax : Http where
+  parseScheme v := if decide (v.length ≤ 64) && v.all laxSchemeByte then some v else none
+  parseAuthority v := if laxAuthOk v then some v else none
+  parsePath v :=
+    let p := v.takeWhile (· != 0x23)
+    if v.isEmpty then none
+    else if p.isEmpty then some [0x2f]
+    else if p.head? == some 0x2f || p.head? == some 0x3f || p == [0x2a] then some p else none
+  uriBuild s a p :=
+    if laxAuthOk a && (s.isSome == p.isSome) then some { scheme := s, authority := some a, path := p } else none
+
+theorem lax_laws : HttpLaws lax where
+  authority_nonempty := by decide
+  authority_as_str := by
+    intro v a h; simp only [lax] at h; split at h <;> cases h; rfl
+  uri_authority_nonempty := by intro s p; rfl
+  uri_authority_parses := by
+    intro s a p u h
+    simp only [lax] at h ⊢
+    split at h
+    · rename_i hc; rw [if_pos ((Bool.and_eq_true _ _).mp hc).1]
+    · cases h
+
+def h1http : Bytes := [0x31, 0x68, 0x74, 0x74, 0x70]
+def isOk {α : Type} : Res α → Bool
+  | .ok _ => true
+  | _ => false
+
+/-- **D-12g, the negation of the full statement** on an `Http` that answers as the real crate does:
+    `:scheme: 1http`, an empty `:scheme`, `:authority: a@b@c`, `:authority: a.com:x` and
+    `:path: /a#frag` (handed over as `/a`, a value the peer never sent) are all accepted by the model
+    (and by the real code, KNOWN-FINDING lines of the run), none satisfies `SyntaxOk`. -/
+theorem C12_accepted_request_syntax_fails :
+    HttpLaws lax ∧
+    (∀ fs ∈ [[(nMethod, GET), (nScheme, h1http), (nAuthority, aCom), (nPath, slash)],
+             [(nMethod, GET), (nScheme, []), (nAuthority, aCom), (nPath, slash)],
+             [(nMethod, GET), (nScheme, sHttps), (nAuthority, [97, 64, 98, 64, 99]), (nPath, slash)],
+             [(nMethod, GET), (nScheme, sHttps), (nAuthority, aCom ++ [58, 120]), (nPath, slash)],
+             [(nMethod, GET), (nScheme, sHttps), (nAuthority, aCom), (nPath, [47, 97, 35, 102])]],
+      isOk (recvRequest lax fs) = true ∧ WellFormedRequest lax fs ∧ ¬ SyntaxOk fs) ∧
+    (recvRequest lax [(nMethod, GET), (nScheme, sHttps), (nAuthority, aCom), (nPath, [47, 97, 35, 102])]).bind
+      (fun r => .ok r.uri.path) = .ok (some [47, 97]) := by
+  refine ⟨lax_laws, ?_, ?_⟩
+  · decide
+  · decide
+
+/-- non-vacuity of the proved part: an `Http` that knows one scheme, one authority and one path
+    satisfies both sets of laws, and the request it accepts is strictly well-formed. -/
+def tiny : Http where
+  parseScheme v := if v = sHttps then some v else none
+  parseAuthority v := if v = aCom then some v else none
+  parsePath v := if v = slash then some v else none
+  uriBuild s a p := if a = aCom then some { scheme := s, authority := some a, path := p } else none
+
+theorem tiny_laws : HttpLaws tiny where
+  authority_nonempty := by decide
+  authority_as_str := by
+    intro v a h; simp only [tiny] at h; split at h <;> cases h; rfl
+  uri_authority_nonempty := by intro s p; rfl
+  uri_authority_parses := by
+    intro s a p u h
+    simp only [tiny] at h ⊢
+    split at h
+    · rename_i hc; rw [if_pos hc]
+    · cases h
+
+theorem tiny_syntax_laws : HttpSyntaxLaws tiny where
+  scheme_syntax := by
+    intro v h; simp only [tiny] at h; split at h
+    · rename_i hc; subst hc; decide
+    · cases h
+  authority_syntax := by
+    intro v h; simp only [tiny] at h; split at h
+    · rename_i hc; subst hc; decide
+    · cases h
+  path_syntax := by
+    intro v h; simp only [tiny] at h; split at h
+    · rename_i hc; subst hc; decide
+    · cases h
+  path_nonempty := by decide
+
+example : isOk (recvRequest tiny [(nMethod, GET), (nScheme, sHttps), (nAuthority, aCom), (nPath, slash), ([120], [49])]) = true := by
+  decide
+example (r : RequestParts)
+    (h : recvRequest tiny [(nMethod, GET), (nScheme, sHttps), (nAuthority, aCom), (nPath, slash), ([120], [49])] = .ok r) :
+    SyntaxOk [(nMethod, GET), (nScheme, sHttps), (nAuthority, aCom), (nPath, slash), ([120], [49])] :=
+  (C12_accepted_request_syntax_partial tiny tiny_laws tiny_syntax_laws _ r h).2
+
+/-! ### the main theorems on the instance that answers as `http` does (`lax`)
+
+    The verdict tables of the correspondence run instantiate `H` by lookup; these examples instantiate
+    it by a *function* with `http`'s behaviour on the bytes used, so that every law is used as a law. -/
+
+def laxReq : List FieldLine :=
+  [(nMethod, GET), (nScheme, sHttps), (nAuthority, aCom), (nPath, [47, 112, 63, 113]), ([120], [49]), (nHost, aCom), ([120], [50])]
+
+example : isOk (recvRequest lax laxReq) = true := by decide
+/-- `C12_accepted_request_wellformed` on `lax`: well-formed, and every `Host` value is the authority -/
+example (r : RequestParts) (h : recvRequest lax laxReq = .ok r) :
+    WellFormedRequest lax laxReq ∧ lastVal nMethod laxReq = some r.method :=
+  let t := C12_accepted_request_wellformed lax lax_laws laxReq r h
+  ⟨t.1, t.2.1⟩
+/-- `C12_malformed_request_refused` on `lax`: `:authority: a.com` with `host: b.com`; a space in the
+    authority (refused by the parser); an unknown pseudo-header field -/
+example : ¬ WellFormedRequest lax [(nMethod, GET), (nAuthority, aCom), (nHost, [98])] := by decide
+example : ∃ e, recvRequest lax [(nMethod, GET), (nAuthority, aCom), (nHost, [98])] = .err e :=
+  let ⟨e, h, _⟩ := C12_malformed_request_refused lax lax_laws _ (by decide)
+  ⟨e, h⟩
+example : ∃ e, recvRequest lax [(nMethod, GET), (nAuthority, [97, 32, 98])] = .err e :=
+  let ⟨e, h, _⟩ := C12_malformed_request_refused lax lax_laws _ (by decide)
+  ⟨e, h⟩
+example : ∃ e, recvRequest lax [(nMethod, GET), (nAuthority, aCom), ([58, 120], [49])] = .err e :=
+  let ⟨e, h, _⟩ := C12_malformed_request_refused lax lax_laws _ (by decide)
+  ⟨e, h⟩
+/-- `C12_accepted_response_wellformed` / `C12_malformed_response_refused` on `lax` -/
+example : recvResponse lax [(nStatus, [50, 48, 52]), ([120], [49])] = .ok (204, [([120], [[49]])]) := by decide
+example : WellFormedResponse lax [(nStatus, [50, 48, 52]), ([120], [49])] :=
+  (C12_accepted_response_wellformed lax _ 204 [([120], [[49]])] (by decide)).1
+example : ∃ e, recvResponse lax [(nStatus, [50, 48, 52]), (nPath, slash)] = .err e :=
+  let ⟨e, h, _⟩ := C12_malformed_response_refused lax _ (by decide)
+  ⟨e, h⟩
+/-- `C12_accepted_trailers_wellformed` / `C12_malformed_trailers_refused` on `lax` -/
+example : WellFormedTrailers [([120], [49]), ([121], [])] :=
+  (C12_accepted_trailers_wellformed lax _ [([120], [[49]]), ([121], [[]])] (by decide)).1
+example : ∃ e, recvTrailers lax [([120], [49]), (nStatus, [50, 48, 48])] = .err e :=
+  let ⟨e, h, _⟩ := C12_malformed_trailers_refused lax _ (by decide)
+  ⟨e, h⟩
+/-- `C12_no_panic` on `lax` -/
+example : recvRequest lax laxReq ≠ .panic := (C12_no_panic lax laxReq).1
+
 /-- sent: GET https://a.com/ with a two-valued header -/
 def sampleHeader : Header :=
   { pseudo := { method := some GET, scheme := some sHttps, authority := some aCom, path := some slash, len := 4 },
